@@ -53,6 +53,31 @@ ASSUMPTIONS = ["client-side bound: iterations <= 2^64 - 2^31, which with the cod
                "Linux configuration: thread event = futex word (HAVE_FUTEX), non-introspection build (da_dc on the caller's stack)"]
 
 INTERVAL = 1 << 41
+import os as _os
+TAG = "c10p%d" % _os.getpid()          # names under .cache/cases are private to this check process
+
+
+def run_retry(cmd, timeout, input=None):
+    """a wall-clock limit never decides by itself: on expiry the unit is re-run once, alone, with 10x the limit"""
+    r = common.run(cmd, timeout=timeout, input=input)
+    if r.returncode == 124:
+        r = common.run(cmd, timeout=timeout * 10, input=input)
+    return r
+
+
+def coq_eval_r(name, imports, body, timeout=900):
+    """driver.coq_eval; a timeout (or a kill under load) is retried once in isolation with 10x the limit; a Coq error is
+    an error at once"""
+    ok, vals, raw = driver.coq_eval("%s_%s" % (TAG, name), imports, body, timeout=timeout)
+    if not ok and ("TIMEOUT" in raw or "Error:" not in raw):
+        ok, vals, raw = driver.coq_eval("%s_%s_retry" % (TAG, name), imports, body, timeout=timeout * 10)
+    return ok, vals, raw
+
+
+def harness_complete(r):
+    """the harness prints END <rc> after its dump: anything else is a truncated output"""
+    tail = (r.stdout or "")[-40:]
+    return r.returncode == 0 and "\nEND 0" in ("\n" + tail)
 
 
 # ---------------------------------------------------------------------------------------------- harness
@@ -111,7 +136,7 @@ def gen_cases(ctx, count):
 def run_width(ctx, exe, cases, permille):
     inp = "".join("%d %d %d %d %d %d %s %s\n" % (i, c[0], c[1], c[2], c[3], len(c[4]), " ".join(map(str, c[4])), " ".join(map(str, c[5])))
                   for i, c in enumerate(cases))
-    r = common.run([exe, "width", str(ctx.seed), str(permille)], input=inp, timeout=600)
+    r = run_retry([exe, "width", str(ctx.seed), str(permille)], 600, input=inp)
     return r
 
 
@@ -180,7 +205,7 @@ def coq_width(cases, res):
     body = ["Definition flat (r : list Z * list (list Z) * list Z) : list Z :=",
             "  let '(h, ops, st) := r in [Z.of_nat (length h)] ++ h ++ [Z.of_nat (length ops)] ++ concat ops ++ [Z.of_nat (length st)] ++ st.",
             "Eval vm_compute in [" + ";\n".join(x for x in items if x) + "]."]
-    ok, vals, raw = driver.coq_eval("c10_width", ["Word", "Conc", "Gen_apply", "Apply"], "\n".join(body) + "\n", timeout=900)
+    ok, vals, raw = coq_eval_r("width", ["Word", "Conc", "Gen_apply", "Apply"], "\n".join(body) + "\n", timeout=900)
     if not ok or len(vals) != 1:
         raise RuntimeError("coq evaluation of the width model failed: " + raw[-2000:])
     xs = driver.ints(vals[0])
@@ -196,14 +221,16 @@ def coq_width(cases, res):
     return out
 
 
-def judge_width(cases, res, model, hang, label):
+def judge_width(cases, res, model, hang, label, permille=0):
     mism, fails, stats = [], [], {"width_cases": 0, "path_return": 0, "path_serial": 0, "path_redirect_serial": 0,
                                   "path_redirect_parallel": 0, "partial_grant": 0, "relinquish_ops": 0, "cas_retries": 0,
                                   "skipped": 0, "width_nested": 0, "with_blockers": 0}
     for i, c in enumerate(cases):
         d = res.get(i, {})
-        desc = {"case": i, "n": c[0], "cpus": c[1], "nest": c[2], "onself": c[3], "widths": c[4], "blockers": c[5], "label": label}
+        desc = {"case": i, "n": c[0], "cpus": c[1], "nest": c[2], "onself": c[3], "widths": c[4], "blockers": c[5], "label": label,
+                "replay": {"kind": "width", "permille": permille}}
         if not d.get("begin"):
+            stats["not_executed"] = stats.get("not_executed", 0) + 1
             continue
         if not d.get("end"):
             fails.append(dict(desc, key="%s:w%d:no-return" % (label, i),
@@ -260,13 +287,49 @@ def judge_width(cases, res, model, hang, label):
                 if d["during"][k] != mst[k]:
                     problems.append("dq_state of level %d during the apply: library %d, model %d" % (k, d["during"][k], mst[k]))
         if problems:
-            mism.append({"what": "width differential: " + "; ".join(problems)[:900], "detail": desc})
+            mism.append(dict(desc, what="width differential: " + "; ".join(problems)[:900]))
     return mism, fails, stats
+
+
+def width_unit(ctx, exe, cases, permille, label):
+    """run a list of width cases, judge them; every way of not getting a verdict is a mismatch.  returns (mism, fails, stats, model)"""
+    chunk_rp = {"kind": "width-chunk", "permille": permille, "cases": [list(c) for c in cases[:400]]}
+    r = run_width(ctx, exe, cases, permille)
+    res, hang, per = parse_width(r.stdout)
+    mism = []
+    if r.returncode == 3:
+        pass                                   # the harness' own watchdog: judged below as a no-return failure of the case it names
+    elif not harness_complete(r):
+        mism.append({"what": "width harness: rc=%s, output %s (%d bytes): no verdict for the cases not reached"
+                             % (r.returncode, "truncated" if r.returncode == 0 else "incomplete", len(r.stdout or "")),
+                     "stderr": (r.stderr or "")[-600:], "replay": chunk_rp})
+    model = coq_width(cases, res)
+    if len(model) != len(cases):
+        raise RuntimeError("width model: %d predictions for %d cases" % (len(model), len(cases)))
+    m, f, st = judge_width(cases, res, model, hang, label, permille)
+    # cases skipped because the parked items did not take their width in time: once more, alone
+    redo = [i for i, c in enumerate(cases) if res.get(i, {}).get("end") and not (res[i].get("blockers_ok") and res[i].get("oracle"))]
+    if redo and r.returncode == 0:
+        sub = [cases[i] for i in redo]
+        r2 = run_width(ctx, exe, sub, 0)
+        res2, hang2, _ = parse_width(r2.stdout)
+        model2 = coq_width(sub, res2)
+        m2, f2, st2 = judge_width(sub, res2, model2, hang2, label + ".redo", 0)
+        m += m2
+        f += f2
+        for k, v in st2.items():
+            st[k] = st.get(k, 0) + v if k != "skipped" else v
+    if st.get("skipped"):
+        m.append({"what": "width: %d case(s) gave no verdict even alone (parked items never took their width)" % st["skipped"],
+                  "replay": chunk_rp})
+    if st.get("not_executed") and r.returncode != 3:
+        m.append({"what": "width: %d of %d cases were not executed by the harness" % (st["not_executed"], len(cases)), "replay": chunk_rp})
+    return mism + m, f, st, model
 
 
 # ---------------------------------------------------------------------------------------------- stress + conformance
 def run_stress(ctx, exe, seed, rounds, permille, big):
-    return common.run([exe, "stress", str(seed), str(rounds), str(permille), str(big)], timeout=900)
+    return run_retry([exe, "stress", str(seed), str(rounds), str(permille), str(big)], 900)
 
 
 def participations(per):
@@ -318,17 +381,43 @@ def participations(per):
     return out
 
 
+def ev_row(e):
+    return [e.kind, e.order, e.off, e.size, e.a, e.b, e.ok & 1]
+
+
+def row_coq(r):
+    z = lambda x: "(%d)" % x if x < 0 else str(x)
+    return "mkEv %d %d 0 %s %d %s %s %d" % (r[0], r[1], z(r[2]), r[3], z(r[4]), z(r[5]), r[6])
+
+
+def conform_rows(name, jobs):
+    """jobs: list of (cfg, [event rows]); Apply.conform inside Coq; returns list of (first rejected index or -1, ended final)"""
+    body = ["Definition traces : list (Z * list event) := [",
+            ";\n".join("(%d, [%s])" % (cfg, "; ".join(row_coq(r) for r in rows)) for cfg, rows in jobs), "].",
+            "Eval vm_compute in map (fun '(sv, tr) => let '(i, d) := conform sv tr in [i; d]) traces."]
+    ok, vals, raw = coq_eval_r(name, ["Word", "Conc", "Gen_apply", "Apply"], "\n".join(body) + "\n", timeout=900)
+    if not ok or len(vals) != 1:
+        raise RuntimeError("coq conformance evaluation failed: " + raw[-2000:])
+    xs = driver.ints(vals[0])
+    if len(xs) != 2 * len(jobs):
+        raise RuntimeError("coq conformance: %d numbers for %d traces" % (len(xs), len(jobs)))
+    return [(xs[2 * k], xs[2 * k + 1]) for k in range(len(jobs))]
+
+
 def conform_traces(name, parts_):
     """replay through Apply.tstep inside Coq, in groups of at most ~5000 events"""
     out, group, size, gi = [], [], 0, 0
     for p in parts_ + [None]:
         if p is None or (group and size + len(p["events"]) > 5000):
-            traces = [(2 * q["n"] + (1 if q["wait"] else 0), q["events"]) for q in group]
-            out += conc.coq_conform("%s_%d" % (name, gi), ["Word", "Conc", "Gen_apply", "Apply"], "conform", traces, chunk=len(traces))
+            if group:
+                out += conform_rows("%s_%d" % (name, gi), [(2 * q["n"] + (1 if q["wait"] else 0), [ev_row(e) for e in q["events"]])
+                                                           for q in group])
             group, size, gi = [], 0, gi + 1
         if p is not None:
             group.append(p)
             size += len(p["events"])
+    if len(out) != len(parts_):
+        raise RuntimeError("conformance: %d results for %d traces" % (len(out), len(parts_)))
     return out
 
 
@@ -354,17 +443,18 @@ def select_traces(good, budget):
     return sel
 
 
-def analyse_stress(text, label):
+def analyse_stress(text, label, sp=None):
     other, per = conc.parse_dump(text)
     fails, stats, hang = [], {}, None
     for l in other:
         f = l.split()
         if f[0] == "F":
-            fails.append({"key": "%s:%s:%s" % (label, f[2], " ".join(f[3:6])), "label": label,
+            fails.append({"key": "%s:%s:%s" % (label, f[2], " ".join(f[3:6])), "label": label, "replay": {"kind": "stress", "sp": sp},
                           "what": "stress: %s (%s)" % (f[2], " ".join(f[3:]))})
         elif f[0] == "HANG":
             hang = l
-            fails.append({"key": "%s:hang" % label, "label": label, "what": "stress: dispatch_apply_f did not return: " + l})
+            fails.append({"key": "%s:hang" % label, "label": label, "replay": {"kind": "stress", "sp": sp},
+                          "what": "stress: dispatch_apply_f did not return: " + l})
         elif f[0] == "A" and len(f) >= 5:
             stats.setdefault("_depths", {})[int(f[1])] = int(f[4])
         elif f[0] in ("S", "K"):
@@ -574,16 +664,17 @@ def coq_replay(name, jobs, window=6, timeout=900, workers=4, chunk_actions=5000)
         for k, j in enumerate(part):
             qs = []
             for pid, evs in j["acts"].items():
-                qs.append("(%d, [%s])" % (pid, "; ".join("A %d %d %d %s %d %s %s" % (pid, e.kind, e.order, z(e.off), e.size, z(e.a), z(e.b))
-                                                         for e in evs)))
+                rows = [e if isinstance(e, (list, tuple)) else ev_row(e) for e in evs]
+                qs.append("(%d, [%s])" % (int(pid), "; ".join("A %d %d %d %s %d %s %s" % (int(pid), r_[0], r_[1], z(r_[2]), r_[3], z(r_[4]), z(r_[5]))
+                                                              for r_ in rows)))
             body.append("Definition qs%d : list (Z * list sact) := [%s]." % (k, ";\n".join(qs)))
             body.append("Definition ord%d : list Z := [%s]." % (k, "; ".join(str(t) for t in j["order"])))
-            tids = "[%s]" % "; ".join(str(t) for t in list(j["acts"].keys()) + [len(j["acts"]) + 1])
+            tids = "[%s]" % "; ".join(str(int(t)) for t in list(j["acts"].keys()) + [len(j["acts"]) + 1])
             calls.append("replay %d %d 1 %d %s %s qs%d ord%d" % (j["n"], j["T"], window, "true" if j["nactions"] <= 700 else "false",
                                                                   tids, k, k))
         body.append("Eval vm_compute in [%s]." % "; ".join(calls))
-        ok, vals, raw = driver.coq_eval("%s_%d" % (name, ci), ["Word", "Conc", "Gen_apply", "Apply", "ApplyR"], "\n".join(body) + "\n",
-                                        timeout=timeout)
+        ok, vals, raw = coq_eval_r("%s_%d" % (name, ci), ["Word", "Conc", "Gen_apply", "Apply", "ApplyR"], "\n".join(body) + "\n",
+                                   timeout=timeout)
         if not ok or len(vals) != 1:
             raise RuntimeError("coq replay evaluation failed: " + raw[-2000:])
         got = [driver.ints(r) for r in re.findall(r"\[([^\[\]]*)\]", vals[0])]
@@ -608,7 +699,7 @@ def round_rank(rd):
     return (r, sum(len(p["events"]) for p in rd["parts"]))
 
 
-def global_replay(tag, allparts, budget):
+def global_replay(tag, allparts, budget, selftest=True):
     """every recorded round as a run of the global model; returns (mismatches, stats)"""
     mism = []
     st = {"rounds_recorded": 0, "rounds_replayed_as_runs_of_Apply_gstep": 0, "rounds_incomplete_at_end_of_recording_replayed": 0,
@@ -616,6 +707,9 @@ def global_replay(tag, allparts, budget):
           "rounds_with_slow_wake_replayed": 0, "rounds_ewouldblock_replayed": 0, "max_participants_in_a_replayed_round": 0,
           "rounds_not_selected_budget": 0}
     rounds, problems = cut_rounds(allparts)
+    sp_of = {p["seed"]: p.get("sp") for p in allparts}
+    for pr in problems:
+        pr["replay"] = {"kind": "stress", "sp": sp_of.get(pr.get("detail", {}).get("seed"))}
     mism += problems
     st["rounds_recorded"] = len(rounds)
     jobs, used = [], 0
@@ -627,6 +721,7 @@ def global_replay(tag, allparts, budget):
         j = order_round(rd)
         if isinstance(j, str):
             mism.append({"what": "a recorded round of dispatch_apply cannot be laid out as one run: " + j,
+                         "replay": {"kind": "stress", "sp": rd["parts"][0].get("sp")},
                          "detail": {"seed": rd["parts"][0]["seed"], "iterations": rd["parts"][0]["n"], "participants": len(rd["parts"])}})
             continue
         j["rd"] = rd
@@ -635,7 +730,7 @@ def global_replay(tag, allparts, budget):
     # vacuity guard: two tampered copies of a recorded round must NOT replay (one helper continuation too few: the last
     # helper's start is not enabled / the da_thr_cnt values do not fit; the operand of a da_todo subtraction off by one)
     import copy as _copy
-    base = next((j for j in jobs if len(j["acts"]) == j["T"] and j["T"] >= 3 and j["n"] >= 3), None)
+    base = next((j for j in jobs if len(j["acts"]) == j["T"] and j["T"] >= 3 and j["n"] >= 3), None) if selftest else None
     tampered = []
     if base is not None:
         t1 = dict(base); t1["T"] = base["T"] - 1; t1["selftest"] = "da_thr_cnt one less than the number of participants"
@@ -648,11 +743,16 @@ def global_replay(tag, allparts, budget):
                 tampered = [t1, t2]
                 break
     res = coq_replay(tag, jobs + tampered) if jobs else []
+    if len(res) != len(jobs) + len(tampered):
+        raise RuntimeError("global replay: %d results for %d rounds" % (len(res), len(jobs) + len(tampered)))
+    if selftest and jobs and not tampered:
+        st["selftest_no_suitable_round"] = 1
     for j, r in zip(tampered, res[len(jobs):]):
         st["selftest_tampered_rounds_rejected"] = st.get("selftest_tampered_rounds_rejected", 0) + (1 if r[1] != 0 else 0)
         if r[1] == 0:
             mism.append({"what": "replay self-test: a tampered round (%s) was accepted by ApplyR.sched: the replay does not "
-                                 "discriminate" % j["selftest"], "detail": {"result": r}})
+                                 "discriminate" % j["selftest"], "detail": {"result": r},
+                         "replay": {"kind": "stress", "sp": j["rd"]["parts"][0].get("sp")}})
     for j, r in zip(jobs, res):
         (done, left, index, todo, thrcnt, evt, freed, uaf, dcbad, returned, invbad, invfirst, alldone, nparts, stuck, stuck_left,
          stuck_pc) = r
@@ -688,7 +788,12 @@ def global_replay(tag, allparts, budget):
                       "complete": rd["complete"], "result": r, "order_head": j["order"][:60]}
             if first_unmatched:
                 detail["first_unmatched_action"] = first_unmatched
-            mism.append({"what": "a recorded round of dispatch_apply is not reproduced as a run of the global model (ApplyR.sched on "
+            rp = {"kind": "stress", "sp": rd["parts"][0].get("sp")}
+            if j["nactions"] <= 1500:          # small enough to carry: the round itself is re-judged by the model on replay
+                rp = {"kind": "round", "sp": rd["parts"][0].get("sp"),
+                      "round": {"n": j["n"], "T": j["T"], "order": j["order"], "final": f, "nactions": j["nactions"],
+                                "acts": {str(pid): [ev_row(e) for e in evs] for pid, evs in j["acts"].items()}}}
+            mism.append({"replay": rp, "what": "a recorded round of dispatch_apply is not reproduced as a run of the global model (ApplyR.sched on "
                                  "Apply.gstep): " + "; ".join(problems), "detail": detail})
             continue
         st["rounds_replayed_as_runs_of_Apply_gstep"] += 1
@@ -705,6 +810,69 @@ def global_replay(tag, allparts, budget):
     return mism, st
 
 
+def round_problems(j, r):
+    """verdict of ApplyR.replay on one round (used by replay(); global_replay has the long form)"""
+    (done, left, index, todo, thrcnt, evt, freed, uaf, dcbad, returned, invbad, invfirst, alldone) = r[:13]
+    out = []
+    if left != 0 or done != j["nactions"]:
+        out.append("the model took %d of %d actions" % (done, j["nactions"]))
+    else:
+        got = {"index": index, "todo": todo, "thrcnt": thrcnt, "evt": evt, "freed": freed, "returned": returned}
+        if got != j["final"]:
+            out.append("end state of the model %s differs from the recorded one %s" % (got, j["final"]))
+        if uaf or dcbad:
+            out.append("uaf=%d dcbad=%d" % (uaf, dcbad))
+        if returned and not alldone:
+            out.append("returned although not every index began and ended once")
+    if invbad:
+        out.append("inv_b false on %d state(s), first at step %d" % (invbad, invfirst))
+    return out
+
+
+def stress_unit(ctx, exe, sp, label):
+    """one stress run with the parameters sp = {seed, rounds, permille, big}: oracle failures, mismatches of the run itself,
+    statistics, and the recorded runs of invoke2 (each tagged with sp)"""
+    r = run_stress(ctx, exe, sp["seed"], sp["rounds"], sp["permille"], sp["big"])
+    rp = {"kind": "stress", "sp": sp}
+    f, st, per, hang = analyse_stress(r.stdout, label, sp)
+    mism = []
+    if r.returncode == 3 and hang:
+        pass                                   # HANG line of the harness' progress watchdog: already a failure
+    elif not harness_complete(r):
+        mism.append({"what": "stress harness: rc=%s, output %s (%d bytes)" % (r.returncode, "truncated" if r.returncode == 0 else "incomplete",
+                                                                             len(r.stdout or "")),
+                     "stderr": (r.stderr or "")[-600:], "replay": rp})
+    depths = st.pop("_depths", {})
+    ps = participations(per)
+    for p in ps:
+        p["seed"] = sp["seed"]
+        p["sp"] = sp
+        p["depth"] = depths.get(p["aid"]) if p["aid"] is not None else None
+    if r.returncode == 0 and (st.get("instances", 0) == 0 or not ps):
+        mism.append({"what": "stress run recorded nothing: %d applies, %d runs of invoke2 (hook compiled out / recorder off?)"
+                             % (st.get("instances", 0), len(ps)), "replay": rp})
+    return f, mism, st, ps
+
+
+def conformance(name, good):
+    """per-run conformance of the selected recorded runs; returns mismatches"""
+    mism = []
+    cres = conform_traces(name, good)
+    for (i, fin), p in zip(cres, good):
+        if i != -1 or fin != 1:
+            rows = [ev_row(e) for e in p["events"]]
+            rp = {"kind": "stress", "sp": p.get("sp")}
+            if len(rows) <= 800:
+                rp = {"kind": "trace", "sp": p.get("sp"), "cfg": 2 * p["n"] + (1 if p["wait"] else 0), "rows": rows}
+            mism.append({"what": "a recorded run of _dispatch_apply_invoke2 is not accepted by the model's thread automaton "
+                                 "(Apply.tstep): the implementation took a step the model does not have", "replay": rp,
+                         "detail": {"seed": p["seed"], "thread": p["thr"], "iterations": p["n"], "caller": p["wait"],
+                                    "rejected_at": i, "ended_final": fin,
+                                    "trace": [e.brief() for e in p["events"]][max(0, i - 6):i + 6] if i >= 0 else
+                                    [e.brief() for e in p["events"]][-8:]}})
+    return mism
+
+
 def correspond(ctx):
     exe = build(ctx)
     quick = ctx.tier == "quick"
@@ -715,12 +883,7 @@ def correspond(ctx):
     samples = []
     for chunk0 in range(0, len(cases), 400):
         chunk = cases[chunk0:chunk0 + 400]
-        r = run_width(ctx, exe, chunk, 0 if chunk0 == 0 else 100)
-        res, hang, per = parse_width(r.stdout)
-        if r.returncode not in (0, 3):
-            mism.append({"what": "width harness died rc=%s" % r.returncode, "detail": (r.stderr or "")[-800:]})
-        model = coq_width(chunk, res)
-        m, f, st = judge_width(chunk, res, model, hang, "seed%d.%d" % (ctx.seed, chunk0))
+        m, f, st, model = width_unit(ctx, exe, chunk, 0 if chunk0 == 0 else 100, "seed%d.%d" % (ctx.seed, chunk0))
         mism += m
         fails += f
         evals += st["width_cases"]
@@ -730,27 +893,24 @@ def correspond(ctx):
             if i < len(chunk) and model[i]:
                 samples.append({"case": dict(zip(("n", "cpus", "nest", "onself", "widths", "blockers"), chunk[i])),
                                 "model": {"header": model[i][0], "ops": model[i][1][:8]}})
+    dist["width_cases_requested"] = len(cases)
+    if dist.get("width_cases", 0) == 0:
+        mism.append({"what": "width differential: no case out of %d produced a verdict" % len(cases),
+                     "replay": {"kind": "width-chunk", "permille": 0, "cases": [list(c) for c in cases[:40]]}})
     distinct = len(set((tuple(c[4]), tuple(c[5]), c[1], min(c[0], 70), c[2], c[3]) for c in cases))
-    # ---- (b) stress + (c) conformance
+    # ---- (b) stress + (c) conformance + (d) global replay
     nseeds, rounds = (3, 40) if quick else (10, 150)
-    allparts = []
+    allparts, sps = [], []
     for i in range(nseeds):
-        seed = ctx.seed * 1000 + i
-        permille = [0, 120, 350][i % 3]
-        r = run_stress(ctx, exe, seed, rounds, permille, 2 if quick else 6)
-        f, st, per, hang = analyse_stress(r.stdout, "seed%d" % seed)
-        if r.returncode not in (0, 3) and not f:
-            mism.append({"what": "stress harness died rc=%s" % r.returncode, "detail": (r.stderr or "")[-800:] + r.stdout[-300:]})
+        sp = {"seed": ctx.seed * 1000 + i, "rounds": rounds, "permille": [0, 120, 350][i % 3], "big": 2 if quick else 6}
+        sps.append(sp)
+        f, m, st, ps = stress_unit(ctx, exe, sp, "seed%d" % sp["seed"])
         fails += f
-        depths = st.pop("_depths", {})
+        mism += m
         for k, v in st.items():
             dist[k] = dist.get(k, 0) + v
-        ps = participations(per)
-        for p in ps:
-            p["seed"] = seed
-            p["depth"] = depths.get(p["aid"]) if p["aid"] is not None else None
         allparts += ps
-    gm, gst = global_replay("c10_replay", allparts, 40000 if quick else 300000)
+    gm, gst = global_replay("replay", allparts, 40000 if quick else 300000)
     mism += gm
     dist.update(gst)
     good = [p for p in allparts if not p.get("truncated")]
@@ -765,19 +925,21 @@ def correspond(ctx):
     dist["participations_recorded"] = len(good)
     good = select_traces(good, 40000 if quick else 400000)
     dist["participations"] = len(good)
+    # floors: a part that measured nothing is a broken tie, not a pass (unless a failure already explains it)
+    if not fails:
+        rp0 = {"kind": "stress", "sp": sps[0]}
+        if not good:
+            mism.append({"what": "trace conformance: no complete run of _dispatch_apply_invoke2 was recorded in %d stress runs" % nseeds,
+                         "replay": rp0})
+        if gst.get("rounds_replayed_as_runs_of_Apply_gstep", 0) == 0 and not gm:
+            mism.append({"what": "global replay: no round was replayed (rounds recorded: %d)" % gst.get("rounds_recorded", 0), "replay": rp0})
     if good:
-        cres = conform_traces("c10_conf", good)
-        for (i, fin), p in zip(cres, good):
-            if i != -1 or fin != 1:
-                mism.append({"what": "a recorded run of _dispatch_apply_invoke2 is not accepted by the model's thread automaton "
-                                     "(Apply.tstep): the implementation took a step the model does not have",
-                             "detail": {"seed": p["seed"], "thread": p["thr"], "iterations": p["n"], "caller": p["wait"],
-                                        "rejected_at": i, "ended_final": fin, "trace": [e.brief() for e in p["events"]][max(0, i - 6):i + 6] if i >= 0 else
-                                        [e.brief() for e in p["events"]][-8:]}})
+        mism += conformance("conf", good)
         evals += len(good)
         distinct += len(set(tuple((e.kind, e.off, e.order) for e in p["events"] if e.kind not in (102, 103)) for p in good))
         for p in good[:2] + [p for p in good if any(e.kind == 32 for e in p["events"])][:1]:
             samples.append({"iterations": p["n"], "caller": p["wait"], "trace": [e.brief() for e in p["events"]][:30]})
+    evals += gst.get("rounds_replayed_as_runs_of_Apply_gstep", 0)
     return {"evaluations": evals, "distinct_nontrivial": distinct,
             "rule": "(a) width differential: chains of 1-4 real queues (serial / concurrent narrowed with dispatch_queue_set_width to "
                     "2..32), 0..w-1 parked items per level, CPU count 1..40, n in {0,1,2,3,cpu-1,cpu,cpu+1,64,200}, nested in an outer "
@@ -786,37 +948,83 @@ def correspond(ctx):
                     "exactly-once, index order on serial chains. (b) stress via dispatch_apply_f: n in {0,1,2,cpu-1,cpu,cpu+1,3,64,257,"
                     "1000,100000}, 11 queue kinds (auto, global x3, serial, concurrent, narrowed, chains), nesting depth 1-3, two driver "
                     "threads, barrier items thrown at the concurrent queues, perturbation 0/12/35 percent: per-index counters, "
-                    "start/end/return stamps. (c) every recorded run of _dispatch_apply_invoke2 replayed through Apply.tstep in Coq",
+                    "start/end/return stamps. (c) recorded runs of _dispatch_apply_invoke2 (applies of at most 300 iterations; a "
+                    "selection within an event budget, rare shapes first) replayed through Apply.tstep in Coq. (d) recorded rounds (all "
+                    "participants of one dispatch_apply, within an action budget) replayed as runs of the global model Apply.gstep "
+                    "(ApplyR.sched), end state compared with the recorded one; inv_b is evaluated on every state passed for rounds of at "
+                    "most 700 actions and on the end state only for larger ones (distribution: states_checked_against_inv_b vs "
+                    "model_actions_replayed); two tampered rounds must be rejected. evaluations = width cases judged + runs conformed + "
+                    "rounds replayed (what was measured, not what was requested)",
             "samples": samples[:10], "distribution": dist, "traces_validated_against_impl": len(good),
             "mismatches": mism[:20], "failures": fails[:20]}
 
 
 def replay(ctx, obj):
+    """re-execute every recorded failing input with its recorded parameters and re-judge it.
+    rc 1: at least one reproduces; 0: all were executed and none reproduces; 2: nothing could be executed"""
     exe = build(ctx)
-    rc = 0
-    for f in obj.get("failures", []):
-        print("recorded failure:", f.get("what"))
-        if "widths" in f:
-            case = (f["n"], f["cpus"], f["nest"], f["onself"], f["widths"], f["blockers"])
-            r = run_width(ctx, exe, [case], 0)
-            res, hang, per = parse_width(r.stdout)
-            model = coq_width([case], res)
-            m, f2, st = judge_width([case], res, model, hang, "replay")
-            print("re-run of the case: %d failures, %d model mismatches" % (len(f2), len(m)))
-            for x in f2 + m:
-                print("  ", x["what"])
-            rc = 1 if (f2 or m) else rc
-        else:
-            lab = f.get("label", "seed1")
-            seed = int(lab.replace("seed", "")) if lab.startswith("seed") and lab[4:].isdigit() else 1
-            r = run_stress(ctx, exe, seed, 40, [0, 120, 350][seed % 3], 2)
-            f2, st, per, hang = analyse_stress(r.stdout, lab)
-            print("re-run of stress seed %d: %d failures" % (seed, len(f2)))
-            for x in f2[:5]:
-                print("  ", x["what"])
-            rc = 1 if f2 else rc
+    items = [("failure", f) for f in obj.get("failures", [])]
+    not_exec = []
     for b in obj.get("broken", []):
-        print("no longer checked at the time of the report:", str(b if isinstance(b, str) else b.get("detail", b))[:600])
-    if not obj.get("failures"):
-        rc = 1     # proof / tie failure without a concrete input: re-run `./check C10` to re-evaluate
-    return rc
+        d = b.get("detail") if isinstance(b, dict) else None
+        if isinstance(b, dict) and b.get("what") == "correspondence" and isinstance(d, dict) and isinstance(d.get("replay"), dict):
+            items.append(("mismatch", d))
+        else:
+            not_exec.append(b)
+    executed, reproduced = 0, 0
+    done_units = set()
+    for kind, it in items:
+        rp = it.get("replay") or {}
+        print("recorded %s: %s" % (kind, str(it.get("what"))[:400]))
+        k = rp.get("kind")
+        again = []
+        if k == "width":
+            case = (it["n"], it["cpus"], it["nest"], it["onself"], it["widths"], it["blockers"])
+            m, f, st, _ = width_unit(ctx, exe, [case], rp.get("permille", 0), "replay")
+            again = [x["what"] for x in f + m]
+        elif k == "width-chunk":
+            cases = [tuple(c) for c in rp.get("cases", [])]
+            m, f, st, _ = width_unit(ctx, exe, cases, rp.get("permille", 0), "replay")
+            again = [x["what"] for x in f + m]
+            if st.get("width_cases", 0) == 0:
+                again.append("no case produced a verdict")
+        elif k == "trace":
+            res = conform_rows("replay_trace", [(rp["cfg"], rp["rows"])])
+            if res[0] != (-1, 1):
+                again = ["the recorded run is rejected by Apply.tstep at event %d (ended final: %d)" % res[0]]
+        elif k == "round":
+            j = dict(rp["round"])
+            res = coq_replay("replay_round", [j])
+            again = round_problems(j, res[0])
+        elif k == "stress" and rp.get("sp"):
+            sp = rp["sp"]
+            key = tuple(sorted(sp.items()))
+            if key in done_units:
+                print("   (same stress run as above)")
+                continue
+            done_units.add(key)
+            f, m, st, ps = stress_unit(ctx, exe, sp, "seed%d" % sp["seed"])
+            gm, gst = global_replay("replay_stress", ps, 300000, selftest=False)
+            good = select_traces([p for p in ps if not p.get("truncated")], 100000)
+            cm = conformance("replay_conf", good) if good else []
+            again = [x["what"] for x in f + m + gm + cm]
+            print("   re-run of stress seed=%(seed)d rounds=%(rounds)d permille=%(permille)d big=%(big)d" % sp)
+        else:
+            not_exec.append(it)
+            continue
+        executed += 1
+        if again:
+            reproduced += 1
+            print("   REPRODUCES (%d):" % len(again))
+            for w in again[:5]:
+                print("     ", str(w)[:500])
+        else:
+            print("   does not reproduce")
+    for b in not_exec:
+        print("not re-executable here (proof / translation / build / entry without recorded input); only a full `./check C10` "
+              "re-establishes it:", str(b if isinstance(b, str) else (b.get("detail", b) if isinstance(b, dict) else b))[:500])
+    if reproduced:
+        return 1
+    if executed:
+        return 0
+    return 2
